@@ -616,6 +616,10 @@ def _random_step(S, rng):
         idxs = sorted({rng.randrange(n) for _ in range(rng.choice([2, 3]))})
         shape, comps, how = _gen_accepted(rng, cat, k)
         S.op_set_many(idxs, comps, how)
+        es = R.entry_category(S.ms.get(idxs[0]))
+        if k > 1 and es is not None and rng.random() < 0.6:
+            # entries written from one object must not stay tied to each other
+            S.op_view(rng.choice(idxs), "setitem", rng.randrange(k), R.gen_plain(rng, es))
         return "set_same_object"
     if r < 0.52:
         i = _pick_index(rng, S.ms, True)
